@@ -298,8 +298,8 @@ func c01r3(c *Ctx, id string) {
 			case "ack", "absorb-metadata":
 				// must be the forwarder's own parameters
 				forwarder := rootFn(cs.Fn)
-				okv := isParamOf(vo, forwarder)
-				oko := isParamOf(oo, forwarder)
+				okv := isParamOf(vo, forwarder) || isVParamOf(strings.TrimPrefix(vo, "&"), forwarder)
+				oko := isParamOf(oo, forwarder) || isVParamOf(strings.TrimPrefix(oo, "&"), forwarder)
 				if okv && oko {
 					c.OK(id, construct, cs.Call.Pos(), "passes the forwarder's own parameters vbID=%s offset=%s", vo, oo)
 				} else {
@@ -322,16 +322,16 @@ func c01r3(c *Ctx, id string) {
 	// callers of the forwarder (the function that builds the ListenerContext)
 	for _, fw := range forwarders(w) {
 		c.see(fw)
-		ps := fw.Params
-		var pPayload, pOff, pVb *ssa.Parameter
-		for _, p := range ps[1:] {
+		var pPayload, pOff, pVb *vparam
+		for _, vp := range vparams(fw) {
+			vp := vp
 			switch {
-			case w.isOffsetPtr(p.Type()):
-				pOff = p
-			case isUint16(p.Type()):
-				pVb = p
-			case types.IsInterface(p.Type()) && pPayload == nil:
-				pPayload = p
+			case w.isOffsetPtr(vp.Type()):
+				pOff = &vp
+			case isUint16(vp.Type()):
+				pVb = &vp
+			case types.IsInterface(vp.Type()) && pPayload == nil && !strings.Contains(vp.Type().String(), "tracing."):
+				pPayload = &vp
 			}
 		}
 		if pPayload == nil || pOff == nil || pVb == nil {
@@ -342,9 +342,9 @@ func c01r3(c *Ctx, id string) {
 			c.CallSites++
 			cc := cs.Call.Common()
 			construct := "forward:" + fname(fw) + "@" + fname(cs.Fn)
-			x := w.Origin(argOfParam(cc, fw, pPayload))
-			oo := w.Origin(argOfParam(cc, fw, pOff))
-			vo := w.Origin(argOfParam(cc, fw, pVb))
+			x := w.Origin(argOfVParam(cc, fw, *pPayload))
+			oo := w.Origin(argOfVParam(cc, fw, *pOff))
+			vo := w.Origin(argOfVParam(cc, fw, *pVb))
 			if oo == x+".Offset" && strings.HasPrefix(vo, x+".") && strings.HasSuffix(vo, ".VbID") {
 				c.OK(id, construct, cs.Call.Pos(), "payload=%s offset=%s vbID=%s", x, oo, vo)
 			} else {
